@@ -2,6 +2,7 @@ package vlib
 
 import (
 	"math/big"
+	"sync"
 )
 
 // Tower is the boring reference for F_p ⊂ F_p[x1]/(x1^d1 - n1) ⊂ ... : each level is a
@@ -12,6 +13,9 @@ type Tower struct {
 	P      *big.Int
 	Deg    []int        // Deg[0] = 1 (the prime field)
 	NonRes [][]*big.Int // NonRes[i] is an element of level i-1 (nil for level 0)
+
+	scMu sync.Mutex
+	sc   map[int][][][]scTerm // tabulated basis products per level (see mulFast)
 }
 
 func NewTower(p *big.Int) *Tower {
@@ -129,7 +133,92 @@ func (t *Tower) levelOf(n int) int {
 
 // Mul multiplies two elements of the same level.
 func (t *Tower) Mul(a, b []*big.Int) []*big.Int {
-	return t.mul(t.levelOf(len(a)), a, b)
+	return t.mulFast(t.levelOf(len(a)), a, b)
+}
+
+type scTerm struct {
+	k int
+	c *big.Int // nil = 1
+}
+
+// mulFast is the schoolbook definition (mul) tabulated: the products of basis vectors are
+// computed once with mul and every product is then the bilinear expansion over that table.
+// The table is cross-checked against mul on first use.
+func (t *Tower) mulFast(level int, a, b []*big.Int) []*big.Int {
+	if level == 0 {
+		return t.mul(0, a, b)
+	}
+	t.scMu.Lock()
+	if t.sc == nil {
+		t.sc = map[int][][][]scTerm{}
+	}
+	tab, ok := t.sc[level]
+	if !ok {
+		d := t.Dim(level)
+		tab = make([][][]scTerm, d)
+		for i := 0; i < d; i++ {
+			tab[i] = make([][]scTerm, d)
+			ei := t.Zero(level)
+			ei[i].SetInt64(1)
+			for j := 0; j < d; j++ {
+				ej := t.Zero(level)
+				ej[j].SetInt64(1)
+				pr := t.mul(level, ei, ej)
+				for k, c := range pr {
+					if c.Sign() == 0 {
+						continue
+					}
+					if c.Cmp(big.NewInt(1)) == 0 {
+						tab[i][j] = append(tab[i][j], scTerm{k, nil})
+					} else {
+						tab[i][j] = append(tab[i][j], scTerm{k, c})
+					}
+				}
+			}
+		}
+		t.sc[level] = tab
+		// self-check on two structured operands
+		x, y := t.Zero(level), t.Zero(level)
+		for i := range x {
+			x[i].SetInt64(int64(3*i*i + 7*i + 11))
+			y[i].Sub(t.P, big.NewInt(int64(5*i+2)))
+		}
+		t.scMu.Unlock()
+		if !t.Equal(t.mulFast(level, x, y), t.mul(level, x, y)) {
+			panic("tower model: tabulated product differs from the schoolbook definition")
+		}
+		t.scMu.Lock()
+	}
+	t.scMu.Unlock()
+	d := len(a)
+	acc := make([]*big.Int, d)
+	for i := range acc {
+		acc[i] = new(big.Int)
+	}
+	var m, m2 big.Int
+	for i := 0; i < d; i++ {
+		if a[i].Sign() == 0 {
+			continue
+		}
+		for j := 0; j < d; j++ {
+			if b[j].Sign() == 0 {
+				continue
+			}
+			m.Mul(a[i], b[j])
+			for _, tm := range tab[i][j] {
+				if tm.c == nil {
+					acc[tm.k].Add(acc[tm.k], &m)
+				} else {
+					m2.Mul(&m, tm.c)
+					acc[tm.k].Add(acc[tm.k], &m2)
+				}
+			}
+		}
+	}
+	for i := range acc {
+		acc[i].Mod(acc[i], t.P)
+	}
+	return acc
 }
 
 func (t *Tower) mul(level int, a, b []*big.Int) []*big.Int {
@@ -177,9 +266,9 @@ func (t *Tower) Exp(a []*big.Int, k *big.Int) []*big.Int {
 	}
 	base := t.Copy(a)
 	for i := k.BitLen() - 1; i >= 0; i-- {
-		res = t.mul(level, res, res)
+		res = t.mulFast(level, res, res)
 		if k.Bit(i) == 1 {
-			res = t.mul(level, res, base)
+			res = t.mulFast(level, res, base)
 		}
 	}
 	return res
@@ -204,6 +293,20 @@ func (t *Tower) Inv(a []*big.Int) []*big.Int {
 		ni := t.Inv(n)
 		z := append(t.mul(level-1, a0, ni), t.Neg(t.mul(level-1, a1, ni))...)
 		return z
+	}
+	if t.Deg[level] == 3 {
+		// X^3 = n: (a0 + a1 X + a2 X^2)^-1 = (t0 + t1 X + t2 X^2)/N with the cofactor formulas
+		sub := t.Dim(level - 1)
+		a0, a1, a2 := a[:sub], a[sub:2*sub], a[2*sub:]
+		m := func(x, y []*big.Int) []*big.Int { return t.mul(level-1, x, y) }
+		n := t.NonRes[level]
+		t0 := t.Sub(m(a0, a0), m(n, m(a1, a2)))
+		t1 := t.Sub(m(n, m(a2, a2)), m(a0, a1))
+		t2 := t.Sub(m(a1, a1), m(a0, a2))
+		N := t.Add(m(a0, t0), m(n, t.Add(m(a2, t1), m(a1, t2))))
+		ni := t.Inv(N)
+		z := append(m(t0, ni), m(t1, ni)...)
+		return append(z, m(t2, ni)...)
 	}
 	e := new(big.Int).Sub(t.Size(level), big.NewInt(2))
 	return t.Exp(a, e)
